@@ -488,8 +488,7 @@ Proof. repeat split. Qed.
 Definition ex_text : str := [104; 233; 108; 108; 111; 32; 119; 8211; 28450; 47; 49; 39; 123; 125; 37; 115].  (* non-ASCII, braces, percent *)
 Example guards_nonvacuous :
   scalar (ex_text ++ [34; 92; 10; 13; 0; 127; 133; 8232; 128512]) = true /\
-  in_range (ex_text ++ [34; 39; 92; 10; 0; 55296; 128512]) = true /\
-  safe_enum_default [108;111;119;45;112;114;105;111;32;50] = true.
+  in_range (ex_text ++ [34; 39; 92; 10; 0; 55296; 128512]) = true.
 Proof. repeat split. Qed.
 (* the escaping sites really escape: what the lexer reads back *)
 
@@ -503,51 +502,6 @@ Proof.
   apply orb_true_iff in H. destruct H as [H|H]; [left; apply N.eqb_eq; exact H|].
   right. apply existsb_exists in H. destruct H as [x [Hx E]]. apply N.eqb_eq in E. subst x. exact Hx.
 Qed.
-
-(* ------------------------------------------------------------------ enum-typed default: text used as an attribute name *)
-Lemma enum_default_char : forall c, (is_alnum c || (c =? 95) || (c =? 45) || (c =? 32)) = true ->
-  is_ident_char ((fun c => if (c =? 45) || (c =? 32) then 95 else c) (upper_ascii c)) = true.
-Proof.
-  intros c H. unfold upper_ascii.
-  destruct (is_lower c) eqn:El.
-  - unfold is_lower in El. apply andb_true_iff in El. destruct El as [A B]. apply N.leb_le in A. apply N.leb_le in B.
-    replace (c - 32 =? 45) with false by (symmetry; apply N.eqb_neq; lia).
-    replace (c - 32 =? 32) with false by (symmetry; apply N.eqb_neq; lia). cbn [orb].
-    unfold is_ident_char, is_alnum, is_alpha, is_upper.
-    replace (65 <=? c - 32) with true by (symmetry; apply N.leb_le; lia).
-    replace (c - 32 <=? 90) with true by (symmetry; apply N.leb_le; lia). reflexivity.
-  - destruct (c =? 45) eqn:E45; [reflexivity|]. destruct (c =? 32) eqn:E32; [reflexivity|]. cbn [orb].
-    rewrite !orb_false_r in H. unfold is_ident_char. exact H.
-Qed.
-
-Theorem enum_default_ident : forall t, safe_enum_default t = true -> is_ident (site_enum_default t) = true.
-Proof.
-  intros t H. unfold safe_enum_default in H. destruct t as [|c t]; [discriminate|].
-  apply andb_true_iff in H. destruct H as [Hd Hall]. cbn [forallb] in Hall. apply andb_true_iff in Hall.
-  destruct Hall as [Hc Ht].
-  unfold site_enum_default, dash_sp_to_us. cbn [map is_ident]. apply andb_true_iff. split.
-  - pose proof (enum_default_char c Hc) as Hi. cbv beta in Hi.
-    unfold is_ident_start. unfold is_ident_char, is_alnum in Hi.
-    destruct (is_alpha (if (upper_ascii c =? 45) || (upper_ascii c =? 32) then 95 else upper_ascii c)) eqn:Ea; [reflexivity|].
-    cbn [orb] in Hi. cbn [orb].
-    destruct ((if (upper_ascii c =? 45) || (upper_ascii c =? 32) then 95 else upper_ascii c) =? 95) eqn:E95; [reflexivity|].
-    rewrite orb_false_r in Hi. exfalso.
-    (* a digit result can only come from a digit c *)
-    unfold upper_ascii in Hi. destruct (is_lower c) eqn:El.
-    + unfold is_lower in El. apply andb_true_iff in El. destruct El as [A B]. apply N.leb_le in A. apply N.leb_le in B.
-      replace (c - 32 =? 45) with false in Hi by (symmetry; apply N.eqb_neq; lia).
-      replace (c - 32 =? 32) with false in Hi by (symmetry; apply N.eqb_neq; lia). cbn [orb] in Hi.
-      unfold is_digit in Hi. apply andb_true_iff in Hi. destruct Hi as [_ Hi]. apply N.leb_le in Hi. lia.
-    + destruct ((c =? 45) || (c =? 32)) eqn:E; [discriminate Hi|]. apply negb_true_iff in Hd. congruence.
-  - rewrite map_map. rewrite forallb_forall in *. intros x Hx. apply in_map_iff in Hx. destruct Hx as [d [Hd' Hin]].
-    subst x. apply enum_default_char. apply Ht. exact Hin.
-Qed.
-
-Lemma enum_default_refuted : safe_enum_default w_quote = false /\ is_ident (site_enum_default w_quote) = false.
-Proof. split; reflexivity. Qed.
-Example enum_default_example : safe_enum_default [108;111;119;45;112;114;105;111;32;50] = true /\
-  site_enum_default [108;111;119;45;112;114;105;111;32;50] = [76;79;87;95;80;82;73;79;95;50].
-Proof. split; reflexivity. Qed.
 
 (* ================================================================== escapers used by the repaired sites *)
 (* ---------- json.dumps(s, ensure_ascii=False) *)
@@ -1477,3 +1431,6 @@ Proof.
   rewrite run_docplain_val by reflexivity. rewrite alias_esc_val by assumption.
   rewrite close_q3. cbn [prepend]. rewrite !app_nil_r. reflexivity.
 Qed.
+
+Example fixed_F15l : lex_str (site_enum_default w_quote ++ [41]) = Some (w_quote, [41]).
+Proof. reflexivity. Qed.
